@@ -10,6 +10,7 @@ package c15
 
 import (
 	"bytes"
+	"crypto/sha256"
 	"crypto/sha512"
 	"encoding/hex"
 	"fmt"
@@ -19,6 +20,7 @@ import (
 	"strings"
 	"syscall"
 
+	"github.com/folbricht/desync"
 	"github.com/klauspost/compress/zstd"
 
 	"verifharness/internal/gen"
@@ -69,10 +71,41 @@ func decode(b []byte, compressed bool) ([]byte, bool) {
 	return b, true
 }
 
-func chunkHex(plain []byte) string {
+// curDigest is the digest algorithm the server of the running (or being generated) case is
+// configured with: "" = SHA512/256, "sha256". Set through setDigest only.
+var curDigest string
+
+// setDigest configures harness and (in-process) desync for the digest of a case and returns the
+// function that puts both back.
+func setDigest(d string) func() {
+	oldCur, oldD := curDigest, desync.Digest
+	curDigest = d
+	if d == "sha256" {
+		desync.Digest = desync.SHA256{}
+	} else {
+		desync.Digest = desync.SHA512256{}
+	}
+	return func() { curDigest, desync.Digest = oldCur, oldD }
+}
+
+func hexBy(plain []byte, digest string) string {
+	if digest == "sha256" {
+		s := sha256.Sum256(plain)
+		return hex.EncodeToString(s[:])
+	}
 	s := sha512.Sum512_256(plain)
 	return hex.EncodeToString(s[:])
 }
+
+func otherDigest(d string) string {
+	if d == "sha256" {
+		return ""
+	}
+	return "sha256"
+}
+
+// chunkHex is the ID of a chunk under the configured digest (the harness' own crypto calls).
+func chunkHex(plain []byte) string { return hexBy(plain, curDigest) }
 
 func ext(compressed bool) string {
 	if compressed {
@@ -91,7 +124,7 @@ type chunkObj struct {
 	Where string // store | store-invalid | store-otherfmt | outside | nowhere
 }
 
-var chunkKeys = []string{"P", "R", "Q", "V", "N", "O", "E", "Z"}
+var chunkKeys = []string{"P", "R", "Q", "V", "N", "O", "E", "Z", "X"}
 
 func chunkUniverse(seed uint64) map[string]*chunkObj {
 	u := map[string]*chunkObj{}
@@ -106,6 +139,9 @@ func chunkUniverse(seed uint64) map[string]*chunkObj {
 	add("O", gen.RandBytes(110, seed^0x66), "store-otherfmt") // present only under the other extension
 	add("E", []byte{}, "nowhere")                             // the empty chunk
 	u["Z"] = &chunkObj{Key: "Z", Hex: zeros, Where: "nowhere"}
+	// X: named by the digest the server is NOT configured with; its own bytes are a bad upload
+	xp := gen.RandBytes(130, seed^0x7a)
+	u["X"] = &chunkObj{Key: "X", Plain: xp, Hex: hexBy(xp, otherDigest(curDigest)), Where: "nowhere"}
 	return u
 }
 
@@ -193,7 +229,7 @@ type world struct {
 var worlds = map[string]*world{}
 
 func worldKey(c Case) string {
-	return fmt.Sprintf("%s/%v/%d", c.Server, c.Server == "chunk" && c.StoreUncompressed, c.Seed)
+	return fmt.Sprintf("%s/%v/%d/%s", c.Server, c.Server == "chunk" && c.StoreUncompressed, c.Seed, c.Digest)
 }
 
 func acquireWorld(c Case) *world {
@@ -202,7 +238,7 @@ func acquireWorld(c Case) *world {
 		delete(worlds, k) // owned by the running case until released
 		return w
 	}
-	if len(worlds) >= 64 {
+	if len(worlds) >= 160 {
 		dropWorlds()
 	}
 	root := hx.Scratch("c15w")
